@@ -33,13 +33,13 @@ type tierCfg struct {
 }
 
 var cfgs = map[string]map[string]tierCfg{
-	"C20": {"quick": {"P20", 3200, 640, 0, 60}, "thorough": {"P20", 320000, 64000, 0, 1500}},
-	"C05": {"quick": {"P05", 4800, 0, 0, 60}, "thorough": {"P05", 480000, 0, 0, 1500}},
-	"C06": {"quick": {"P06", 4800, 0, 0, 60}, "thorough": {"P06", 320000, 0, 48000, 1500}},
-	"C07": {"quick": {"P07", 6400, 0, 0, 60}, "thorough": {"P07", 480000, 0, 64000, 1500}},
-	"C10": {"quick": {"P10", 6400, 0, 0, 60}, "thorough": {"P10", 480000, 0, 0, 1500}},
-	"C13": {"quick": {"P13", 4800, 0, 0, 60}, "thorough": {"P13", 320000, 0, 48000, 1500}},
-	"C14": {"quick": {"P14", 6400, 0, 0, 60}, "thorough": {"P14", 640000, 0, 0, 1500}},
+	"C20": {"quick": {"P20", 24000, 1920, 0, 90}, "thorough": {"P20", 2400000, 192000, 0, 1500}},
+	"C05": {"quick": {"P05", 32000, 0, 0, 90}, "thorough": {"P05", 3200000, 0, 0, 1500}},
+	"C06": {"quick": {"P06", 32000, 0, 0, 90}, "thorough": {"P06", 2400000, 0, 480000, 1500}},
+	"C07": {"quick": {"P07", 48000, 0, 0, 90}, "thorough": {"P07", 4800000, 0, 960000, 1500}},
+	"C10": {"quick": {"P10", 48000, 0, 0, 90}, "thorough": {"P10", 4800000, 0, 0, 1500}},
+	"C13": {"quick": {"P13", 32000, 0, 0, 90}, "thorough": {"P13", 2400000, 0, 480000, 1500}},
+	"C14": {"quick": {"P14", 64000, 0, 0, 90}, "thorough": {"P14", 6400000, 0, 0, 1500}},
 }
 
 type known struct {
@@ -167,7 +167,13 @@ func main() {
 						args = append(args, "-progress", prog)
 					}
 					cmd := exec.Command(filepath.Join(work, bin), args...)
-					cmd.Env = append(os.Environ(), "GORACE=halt_on_error=1 exitcode=66", "GOMAXPROCS=4")
+					// plain workers hand the baton over a channel: one P makes that a
+					// goroutine switch; race workers park on pipes and need spare Ps
+					gmp := "GOMAXPROCS=1"
+					if race {
+						gmp = "GOMAXPROCS=4"
+					}
+					cmd.Env = append(os.Environ(), "GORACE=halt_on_error=1 exitcode=66", gmp)
 					var eb bytes.Buffer
 					cmd.Stderr = &eb
 					err := cmd.Run()
